@@ -396,131 +396,158 @@ func suiteTLS(args []string) {
 	}
 
 	// ---- role 1: peers attacking a Server prepared with DefaultServerTLSConfig ----
-	var sessAuthCalls, handlerCalls int32
-	scfg := &tls.Config{Certificates: []tls.Certificate{p.server["valid"]}, ClientCAs: p.pool}
-	kmip.DefaultServerTLSConfig(scfg)
-	srv := &kmip.Server{TLSConfig: scfg, Log: log.New(io.Discard, "", 0), ReadTimeout: 2 * time.Second, WriteTimeout: 2 * time.Second}
-	srv.SessionAuthHandler = func(conn net.Conn) (interface{}, error) { atomic.AddInt32(&sessAuthCalls, 1); return nil, nil }
-	srv.Handle(kmip.OPERATION_GET, func(ctx *kmip.RequestContext, item *kmip.RequestBatchItem) (interface{}, error) {
-		atomic.AddInt32(&handlerCalls, 1)
-		return kmip.GetResponse{}, nil
-	})
-	tcp, err := net.Listen("tcp", "127.0.0.1:0")
-	if err != nil {
-		panic(err)
-	}
-	served := make(chan error, 1)
-	init := make(chan struct{})
-	go func() { served <- srv.Serve(tls.NewListener(tcp, scfg), init) }()
-	<-init
-	getReq := func() []byte {
-		rq := kmip.Request{Header: kmip.RequestHeader{Version: kmip.ProtocolVersion{Major: 1, Minor: 4}, BatchCount: 1},
-			BatchItems: []kmip.RequestBatchItem{{Operation: kmip.OPERATION_GET, RequestPayload: kmip.GetRequest{UniqueIdentifier: "x"}}}}
-		_, b := implEncode(&rq)
-		return b
-	}()
-	tryServer := func(certKind string, maxv uint16, plaintext bool) string {
-		sa0, h0 := atomic.LoadInt32(&sessAuthCalls), atomic.LoadInt32(&handlerCalls)
-		gotResponse := false
-		func() {
-			var conn net.Conn
-			raw, err := net.DialTimeout("tcp", tcp.Addr().String(), time.Second)
-			if err != nil {
-				return
-			}
-			defer raw.Close()
-			conn = raw
-			if !plaintext {
-				ccfg := &tls.Config{RootCAs: p.pool, ServerName: "localhost", MinVersion: tls.VersionTLS10, MaxVersion: maxv}
-				if certKind != "none" {
-					ccfg.Certificates = []tls.Certificate{p.client[certKind]}
-				}
-				tc := tls.Client(raw, ccfg)
-				tc.SetDeadline(time.Now().Add(2 * time.Second))
-				if err := tc.Handshake(); err != nil {
-					return
-				}
-				conn = tc
-			}
-			conn.SetDeadline(time.Now().Add(1500 * time.Millisecond))
-			if _, err := conn.Write(getReq); err != nil {
-				return
-			}
-			hdr := make([]byte, 8)
-			if _, err := io.ReadFull(conn, hdr); err != nil {
-				return
-			}
-			if hdr[0] == 0x42 && hdr[2] == 0x7b {
-				gotResponse = true
-			}
+	// (fresh configuration, then one that held weaker settings before the call)
+	for _, weak := range []bool{false, true} {
+		roleName := "server"
+		var sessAuthCalls, handlerCalls int32
+		scfg := &tls.Config{Certificates: []tls.Certificate{p.server["valid"]}, ClientCAs: p.pool}
+		if weak {
+			roleName = "server-weak"
+			scfg.MinVersion = tls.VersionTLS10
+			scfg.ClientAuth = tls.VerifyClientCertIfGiven
+		}
+		kmip.DefaultServerTLSConfig(scfg)
+		srv := &kmip.Server{TLSConfig: scfg, Log: log.New(io.Discard, "", 0), ReadTimeout: 2 * time.Second, WriteTimeout: 2 * time.Second}
+		srv.SessionAuthHandler = func(conn net.Conn) (interface{}, error) { atomic.AddInt32(&sessAuthCalls, 1); return nil, nil }
+		srv.Handle(kmip.OPERATION_GET, func(ctx *kmip.RequestContext, item *kmip.RequestBatchItem) (interface{}, error) {
+			atomic.AddInt32(&handlerCalls, 1)
+			return kmip.GetResponse{}, nil
+		})
+		tcp, err := net.Listen("tcp", "127.0.0.1:0")
+		if err != nil {
+			panic(err)
+		}
+		served := make(chan error, 1)
+		init := make(chan struct{})
+		go func() { served <- srv.Serve(tls.NewListener(tcp, scfg), init) }()
+		<-init
+		getReq := func() []byte {
+			rq := kmip.Request{Header: kmip.RequestHeader{Version: kmip.ProtocolVersion{Major: 1, Minor: 4}, BatchCount: 1},
+				BatchItems: []kmip.RequestBatchItem{{Operation: kmip.OPERATION_GET, RequestPayload: kmip.GetRequest{UniqueIdentifier: "x"}}}}
+			_, b := implEncode(&rq)
+			return b
 		}()
-		time.Sleep(20 * time.Millisecond)
-		sa1, h1 := atomic.LoadInt32(&sessAuthCalls), atomic.LoadInt32(&handlerCalls)
-		ran := sa1 > sa0 || h1 > h0
-		if gotResponse != ran {
-			// a response without callbacks or callbacks without a response are both wrong in their own right
-			if ran && !gotResponse {
-				return "callbacks-ran-no-response"
-			}
-		}
-		if gotResponse || ran {
-			return "admitted"
-		}
-		return "refused"
-	}
-	for _, ck := range []string{"none", "valid", "selfsigned", "otherca", "expired", "wronghost"} {
-		for _, tv := range tlsVersions {
-			obs := tryServer(ck, tv.v, false)
-			cw.add("tls-server", fmt.Sprintf("tls server %x %s 0", tv.v, ck), obs)
-			rep.Distribution["server:"+obs]++
-		}
-	}
-	obs := tryServer("none", tls.VersionTLS13, true)
-	cw.add("tls-server", fmt.Sprintf("tls server %x none 1", tls.VersionTLS13), obs)
-	rep.Distribution["server:"+obs]++
-	ctx, cancel := contextWithTimeout(3 * time.Second)
-	srv.Shutdown(ctx)
-	cancel()
-	<-served
-
-	// ---- role 2: a Client prepared with DefaultClientTLSConfig against impersonating servers ----
-	for _, ck := range []string{"valid", "selfsigned", "otherca", "expired", "wronghost"} {
-		for _, tv := range tlsVersions {
-			var appData int32
-			rcfg := &tls.Config{Certificates: []tls.Certificate{p.server[ck]}, MinVersion: tls.VersionTLS10, MaxVersion: tv.v}
-			l, err := tls.Listen("tcp", "127.0.0.1:0", rcfg)
-			if err != nil {
-				panic(err)
-			}
-			done := make(chan struct{})
-			go func() {
-				defer close(done)
-				conn, err := l.Accept()
+		tryServer := func(certKind string, maxv uint16, plaintext bool) string {
+			sa0, h0 := atomic.LoadInt32(&sessAuthCalls), atomic.LoadInt32(&handlerCalls)
+			gotResponse := false
+			func() {
+				var conn net.Conn
+				raw, err := net.DialTimeout("tcp", tcp.Addr().String(), time.Second)
 				if err != nil {
 					return
 				}
-				defer conn.Close()
-				conn.SetDeadline(time.Now().Add(time.Second))
-				buf := make([]byte, 4096)
-				n, _ := conn.Read(buf)
-				if n > 0 {
-					atomic.AddInt32(&appData, int32(n))
-					conn.Write(okReply())
+				defer raw.Close()
+				conn = raw
+				if !plaintext {
+					ccfg := &tls.Config{RootCAs: p.pool, ServerName: "localhost", MinVersion: tls.VersionTLS10, MaxVersion: maxv}
+					if certKind != "none" {
+						ccfg.Certificates = []tls.Certificate{p.client[certKind]}
+					}
+					tc := tls.Client(raw, ccfg)
+					tc.SetDeadline(time.Now().Add(2 * time.Second))
+					if err := tc.Handshake(); err != nil {
+						return
+					}
+					conn = tc
+				}
+				conn.SetDeadline(time.Now().Add(1500 * time.Millisecond))
+				if _, err := conn.Write(getReq); err != nil {
+					return
+				}
+				hdr := make([]byte, 8)
+				if _, err := io.ReadFull(conn, hdr); err != nil {
+					return
+				}
+				if hdr[0] == 0x42 && hdr[2] == 0x7b {
+					gotResponse = true
 				}
 			}()
-			c := &kmip.Client{Endpoint: l.Addr().String(), TLSConfig: clientTLS(), ReadTimeout: time.Second, WriteTimeout: time.Second}
-			obs := "refused"
-			if err := c.Connect(); err == nil {
-				c.DiscoverVersions(nil)
-				c.Close()
+			time.Sleep(20 * time.Millisecond)
+			sa1, h1 := atomic.LoadInt32(&sessAuthCalls), atomic.LoadInt32(&handlerCalls)
+			ran := sa1 > sa0 || h1 > h0
+			if gotResponse != ran {
+				// a response without callbacks or callbacks without a response are both wrong in their own right
+				if ran && !gotResponse {
+					return "callbacks-ran-no-response"
+				}
 			}
-			l.Close()
-			<-done
-			if atomic.LoadInt32(&appData) > 0 {
-				obs = "admitted" // a request reached the server
+			if gotResponse || ran {
+				return "admitted"
 			}
-			cw.add("tls-client", fmt.Sprintf("tls client %x %s 0", tv.v, ck), obs)
-			rep.Distribution["client:"+obs]++
+			return "refused"
+		}
+		for _, ck := range []string{"none", "valid", "selfsigned", "otherca", "expired", "wronghost"} {
+			for _, tv := range tlsVersions {
+				obs := tryServer(ck, tv.v, false)
+				if weak && !(ck == "none" || ck == "valid" || ck == "selfsigned") {
+					continue
+				}
+				cw.add("tls-server", fmt.Sprintf("tls %s %x %s 0", roleName, tv.v, ck), obs)
+				rep.Distribution[roleName+":"+obs]++
+			}
+		}
+		obs := tryServer("none", tls.VersionTLS13, true)
+		cw.add("tls-server", fmt.Sprintf("tls %s %x none 1", roleName, tls.VersionTLS13), obs)
+		rep.Distribution[roleName+":"+obs]++
+		ctx, cancel := contextWithTimeout(3 * time.Second)
+		srv.Shutdown(ctx)
+		cancel()
+		<-served
+	}
+
+	// ---- role 2: a Client prepared with DefaultClientTLSConfig against impersonating servers ----
+	for _, weak := range []bool{false, true} {
+		roleName := "client"
+		mkClientTLS := clientTLS
+		if weak {
+			roleName = "client-weak"
+			mkClientTLS = func() *tls.Config {
+				cfg := &tls.Config{RootCAs: getPKI().pool, ServerName: "localhost", MinVersion: tls.VersionTLS10}
+				kmip.DefaultClientTLSConfig(cfg)
+				return cfg
+			}
+		}
+		for _, ck := range []string{"valid", "selfsigned", "otherca", "expired", "wronghost"} {
+			if weak && ck != "valid" && ck != "selfsigned" {
+				continue
+			}
+			for _, tv := range tlsVersions {
+				var appData int32
+				rcfg := &tls.Config{Certificates: []tls.Certificate{p.server[ck]}, MinVersion: tls.VersionTLS10, MaxVersion: tv.v}
+				l, err := tls.Listen("tcp", "127.0.0.1:0", rcfg)
+				if err != nil {
+					panic(err)
+				}
+				done := make(chan struct{})
+				go func() {
+					defer close(done)
+					conn, err := l.Accept()
+					if err != nil {
+						return
+					}
+					defer conn.Close()
+					conn.SetDeadline(time.Now().Add(time.Second))
+					buf := make([]byte, 4096)
+					n, _ := conn.Read(buf)
+					if n > 0 {
+						atomic.AddInt32(&appData, int32(n))
+						conn.Write(okReply())
+					}
+				}()
+				c := &kmip.Client{Endpoint: l.Addr().String(), TLSConfig: mkClientTLS(), ReadTimeout: time.Second, WriteTimeout: time.Second}
+				obs := "refused"
+				if err := c.Connect(); err == nil {
+					c.DiscoverVersions(nil)
+					c.Close()
+				}
+				l.Close()
+				<-done
+				if atomic.LoadInt32(&appData) > 0 {
+					obs = "admitted" // a request reached the server
+				}
+				cw.add("tls-client", fmt.Sprintf("tls %s %x %s 0", roleName, tv.v, ck), obs)
+				rep.Distribution[roleName+":"+obs]++
+			}
 		}
 	}
 	// plaintext "server": the client must not send a request
